@@ -63,13 +63,21 @@ type AfterClause struct {
 	Cl    Clause
 }
 
+type TableFact struct {
+	Global string
+	Cl     Clause
+	Info   *types.Info
+	OK     bool
+	Detail string
+}
+
 type ExternAssume struct {
 	Src  string
 	Expr ast.Expr
 	Info *types.Info
 }
 
-var kwRe = regexp.MustCompile(`^(func|props|variant|ghost|requires|ensures|invariant|decreases|assigns|safe|summary|alias|nonnil|extern|opt|lemma|assume|callreq|trusted|uninterpreted|assertafter)\b`)
+var kwRe = regexp.MustCompile(`^(func|props|variant|ghost|requires|ensures|invariant|decreases|assigns|safe|summary|alias|nonnil|extern|opt|lemma|assume|callreq|trusted|uninterpreted|assertafter|tablefact)\b`)
 var tagRe = regexp.MustCompile(`^\[([A-Za-z0-9, ]+)\]\s*`)
 var nameRe = regexp.MustCompile(`^([a-zA-Z_][a-zA-Z0-9_\-]*):\s+`)
 
@@ -134,6 +142,14 @@ func (e *Engine) loadContracts(file *ast.File) error {
 			}
 			e.contracts = append(e.contracts, cur)
 			counts = map[string]int{}
+		case "tablefact":
+			// tablefact <global> [props] name: <expr over c>   -- checked for every index by evaluation, then available as a fact
+			p := strings.SplitN(d.rest, " ", 2)
+			if len(p) != 2 {
+				return fmt.Errorf("line %d: tablefact GLOBAL name: expr", d.line)
+			}
+			props, name, rest := splitTagName(strings.TrimSpace(p[1]))
+			e.tableFacts = append(e.tableFacts, &TableFact{Global: p[0], Cl: Clause{Name: name, Props: props, Src: rest, Line: d.line}})
 		case "uninterpreted":
 			for _, n := range strings.Fields(d.rest) {
 				e.uninterpSpec[n] = true
@@ -215,8 +231,12 @@ func (e *Engine) loadContracts(file *ast.File) error {
 				cur.CallReqs[p[0]] = append(cur.CallReqs[p[0]], Clause{Name: name, Props: props, Src: rest, Line: d.line})
 			case "assertafter":
 				// assertafter "<call text>" [props] name: expr
-				q1 := strings.Index(d.rest, "\"")
-				q2 := strings.Index(d.rest[q1+1:], "\"")
+				delim := "\""
+				if strings.HasPrefix(d.rest, "`") {
+					delim = "`"
+				}
+				q1 := strings.Index(d.rest, delim)
+				q2 := strings.Index(d.rest[q1+1:], delim)
 				if q1 != 0 || q2 < 0 {
 					return fmt.Errorf("line %d: assertafter \"call text\" expr", d.line)
 				}
@@ -410,6 +430,9 @@ func (env *SpecEnv) eval(ex ast.Expr) Value {
 		if v, ok := env.vars[x.Name]; ok {
 			return v
 		}
+		if p, ok := env.addrs[x.Name]; ok {
+			return env.st.Load(p, nil)
+		}
 		switch x.Name {
 		case "true":
 			return True()
@@ -533,6 +556,11 @@ func (env *SpecEnv) indexValue(base Value, idx Term) Value {
 	case ArrayVal:
 		return fx.project(b, PathElem{Field: -1, Idx: idx})
 	case PtrVal:
+		if bp := fx.materialise(b); bp.Obj != nil && fx.factObjs[bp.Obj] != nil && len(bp.Path) == 0 {
+			for _, inst := range fx.tableInstance(bp.Obj, idx) {
+				fx.axiom(inst)
+			}
+		}
 		return env.indexValue(env.deref(b), idx)
 	}
 	env.fail("index of %T", base)
@@ -773,6 +801,8 @@ func (env *SpecEnv) callExpr(x *ast.CallExpr) Value {
 		return env.eval(x.Args[0]).(SliceVal).Off
 	case "math.Float64frombits":
 		return FPFromBits(env.eval(x.Args[0]).(Term))
+	case "math.Float64bits":
+		return fx.float64bits(env.eval(x.Args[0]).(Term))
 	case "math.IsNaN":
 		return Term{S: "(fp.isNaN " + env.eval(x.Args[0]).(Term).S + ")", So: SBool}
 	case "math.IsInf":
